@@ -3,6 +3,7 @@ import SphericalVerif.Gen.HKern
 import SphericalVerif.Gen.FillKern
 import SphericalVerif.Gen.HornerKern
 import SphericalVerif.Gen.CPowKern
+import SphericalVerif.Gen.RotHKern
 import SphericalVerif.Model.Assemble
 import SphericalVerif.Model.W3j
 import SphericalVerif.Spec.Orderings
@@ -178,6 +179,21 @@ def step (line : String) : String :=
     let st := Gen.u_evaluate_Horner (α := Float) (cxFun fa) 3 0 L P 0 ellMaxM.toInt! s.toInt! (fun i => frd (α := Float) st 0 i) z0 z2
       1 (fa.size : Nat) (fun _ _ => ⟨bf pre, bf pim⟩) st
     cxs (frdC (α := Float) st 3 0)
+  | "genrotH" :: L :: s :: ellMaxM :: r0 :: r1 :: r2 :: r3 :: dflt :: rest =>
+    -- the GENERATED `_rotate_Horner` (one row) on the workspace left by the GENERATED `Wigner.H`
+    let L := L.toNat!; let eM := ellMaxM.toNat!
+    let (z0, z1, z2) := eulerPhases (bf r0) (bf r1) (bf r2) (bf r3)
+    let st := genHState L L z1.re z1.im (bf dflt)
+    let pw := parseCxArray (rest.take (2*(2*eM+1)))
+    let f := parseCxArray (rest.drop (2*(2*eM+1)))
+    let n : Int := ((eM+1)*(eM+1) : Nat)
+    let st := Gen.u_rotate_Horner (α := Float) (cxFun f) 3 0 L L 0 eM s.toInt! (fun i => frd (α := Float) st 0 i) z0 z2 4 5 1 1 n n
+      (fun _ m => cget pw (m + eM).toNat) st
+    let lo := s.toInt!.natAbs
+    let out := (Spec.yRange 0 eM).map (fun t =>
+      if t.1.toNat < lo then cxs (⟨0.0, 0.0⟩ : Cx Float)
+      else cxs (frdC (α := Float) st 3 (t.1 * (t.1 + 1) + t.2)))
+    String.intercalate " " out
   | "rotH" :: L :: s :: ellMaxM :: r0 :: r1 :: r2 :: r3 :: dflt :: rest =>
     -- rest = (2*ellMaxM+1) complex powers zγ^m for m = -ellMaxM..ellMaxM, then the mode weights
     let L := L.toNat!; let eM := ellMaxM.toNat!
